@@ -1,10 +1,10 @@
 package props
 
 import (
-	"sort"
 	"go/constant"
 	"go/token"
 	"go/types"
+	"sort"
 	"strings"
 
 	"golang.org/x/tools/go/ssa"
@@ -344,7 +344,7 @@ func ruleNegotiatedMin(c *Ctx, p *core.Program, rule string, hg *ssa.Function) (
 				case o == "Options.ProtocolVersion":
 					c.R.Ok(rule, key, cfg, p.Pos(s.Pos()), "constructor: from Options.ProtocolVersion")
 				case o == "ServerHello.Revision":
-					edges := core.CondEdges(fn, true, func(cond ssa.Value) (bool, bool) {
+					edges := core.PredEdges(fn, true, func(cond ssa.Value) (bool, bool) {
 						bo, ok := cond.(*ssa.BinOp)
 						if !ok {
 							return false, false
@@ -435,6 +435,7 @@ func runC13(c *Ctx) {
 	ruleOptionDefaults(c, p, "C13.defaults")
 	ruleConnChannel(c, p, "C13.conn-channel")
 	ruleCodeWidth(c, p, "C13.codewidth")
+	ruleExceptionChain(c, p, "C13.exception-chain")
 	ruleSettingsEnd(c, p, "C13.settings-end")
 	hs := p.Method(core.PkgCh, "Client", "handshake")
 	if !c.must(p, "(*ch.Client).handshake", hs != nil) {
@@ -901,6 +902,12 @@ func runC13(c *Ctx) {
 		late := false
 		if cn != nil {
 			hcalls := core.FindCalls(cn, isClientMethod("handshake"))
+			// or a helper of Client that runs the handshake (handshake under its timeout)
+			for _, call := range core.Calls(cn) {
+				if g := core.StaticFn(call); g != nil && g.Blocks != nil && pkgOf(g) != nil && pkgOf(g).Path() == core.PkgCh && g.Name() != "handshake" && core.ReachesCallee(g, isClientMethod("handshake"), 1) {
+					hcalls = append(hcalls, call)
+				}
+			}
 			early := false
 			n := 0
 			for _, b := range cn.Blocks {
@@ -1461,4 +1468,52 @@ func ruleSettingsEnd(c *Ctx, p *core.Program, rule string) {
 	} else {
 		c.R.Ok(rule, key, cfg, p.Pos(enc.Pos()), sprintf("an empty-name terminator lies on every path (%d written in all)", n))
 	}
+}
+
+// ruleExceptionChain (C13 / C03): the nested-exception loop looks at the exception it has just read.
+func ruleExceptionChain(c *Ctx, p *core.Program, rule string) {
+	c.R.Rule(rule, "in Client.exception every read of proto.Exception.Nested that sits inside the loop reads the struct that a decode call of the same iteration filled (the decode with that struct as its target is inside the loop too): a loop condition that re-reads the first exception's flag never ends once that flag is set - after the last exception of the chain the client waits for more until the peer hangs up, and the chain is lost")
+	cfg := p.Cfg.Name
+	fn := p.Method(core.PkgCh, "Client", "exception")
+	if !c.must(p, "(*ch.Client).exception", fn != nil) {
+		return
+	}
+	n := 0
+	for _, b := range fn.Blocks {
+		for _, in := range b.Instrs {
+			fa, ok := in.(*ssa.FieldAddr)
+			if !ok || !core.IsNamed(fa.X.Type(), core.PkgProto, "Exception") || fieldNameOnly(fa.X.Type(), fa.Field) != "Nested" {
+				continue
+			}
+			if !core.InLoop(fa) {
+				continue
+			}
+			n++
+			key := core.FuncName(fn) + sprintf("/nested#%d", n)
+			filledInLoop := false
+			for _, r := range *fa.X.Referrers() {
+				var user ssa.Instruction = r
+				if mi, ok := r.(*ssa.MakeInterface); ok {
+					for _, r2 := range *mi.Referrers() {
+						if call, ok := r2.(ssa.CallInstruction); ok && core.InLoop(r2) {
+							_ = call
+							filledInLoop = true
+						}
+					}
+					continue
+				}
+				if call, ok := user.(ssa.CallInstruction); ok && core.InLoop(user) {
+					_ = call
+					filledInLoop = true
+				}
+			}
+			if filledInLoop {
+				c.R.Ok(rule, key, cfg, p.Pos(fa.Pos()), "the flag read is of the exception decoded in this iteration")
+			} else {
+				c.R.Bad(rule, key, cfg, p.Pos(fa.Pos()), "the loop re-reads the Nested flag of an exception decoded before the loop: with a nested chain it never terminates by itself")
+			}
+		}
+	}
+	c.R.Count("Nested reads inside the exception loop", n)
+	c.R.Floor(rule, cfg, n, 1)
 }
